@@ -192,6 +192,18 @@ func newHostRunner(c *sexp.S) (*hostRunner, error) {
 		}
 		return a[0], nil
 	})
+	// tick hands out the SAME *Value at every call and counts in place (a host that recycles its result object): whoever
+	// keeps the pointer instead of using the value at once sees later counts
+	zero := 0.0
+	tickCell := &variable.Value{Number: &zero}
+	dr.AddFunction("tick", func(a []*variable.Value) (*variable.Value, error) {
+		h.log = append(h.log, "tick("+obs.Values(a)+")")
+		if len(a) != 0 {
+			return nil, fmt.Errorf("arity")
+		}
+		*tickCell.Number++
+		return tickCell, nil
+	})
 	dr.AddFunction("two", func(a []*variable.Value) (*variable.Value, error) {
 		h.log = append(h.log, "two("+obs.Values(a)+")")
 		if len(a) != 2 {
